@@ -14,6 +14,10 @@
 (*                     start-up, whatever the configuration says)           *)
 (*          "reopenval" the same with validate_data_during_index_regen on   *)
 (*   pos:   "only" / "first" / "middle" / "last" record of its blob        *)
+(*   size:  size class of the damaged record's data: "s" (tens of bytes),   *)
+(*          "e4k" (the record just fills the single 4 KiB write buffer),     *)
+(*          "e80k" (one byte beyond the in-place I/O threshold), "big"       *)
+(*          (200 KiB: several 64 KiB blocks and a remainder)                 *)
 (*                                                                         *)
 (* Allowed outcomes for the damaged record: an error from read, or the     *)
 (* whole blob set aside (quarantined) at start-up; never bytes.  Allowed   *)
@@ -22,10 +26,11 @@
 (***************************************************************************)
 EXTENDS Naturals, FiniteSets, TLC, Json
 
-VARIABLES index, pos, nrec
+VARIABLES index, pos, nrec, size
 
 Indexes == {"mem", "disk", "regen", "regenval", "reopen", "reopenval"}
 Positions == {"only", "first", "middle", "last"}
+SizeClasses == {"s", "e4k", "e80k", "big"}
 
 \* is the data checksum evaluated before the storage starts serving?
 CheckedAtStart == index = "regenval"
@@ -34,16 +39,16 @@ Damaged == IF CheckedAtStart THEN {"quarantined"} ELSE {"error"}
 SameBlob == IF CheckedAtStart THEN {"quarantined"} ELSE {"served"}
 OtherBlob == {"served"}
 
-BInit == index \in Indexes /\ pos \in Positions /\ nrec \in 1..3
+BInit == index \in Indexes /\ pos \in Positions /\ nrec \in 1..3 /\ size \in SizeClasses
          /\ (pos = "only") = (nrec = 1) /\ (pos = "middle" => nrec = 3)
-BNext == UNCHANGED <<index, pos, nrec>>
-BSpec == BInit /\ [][BNext]_<<index, pos, nrec>>
+BNext == UNCHANGED <<index, pos, nrec, size>>
+BSpec == BInit /\ [][BNext]_<<index, pos, nrec, size>>
 
 \* the property: altered bytes are never returned as a successful read
 NeverServed == "served" \notin Damaged /\ Damaged # {}
 \* damage is contained: another blob is never affected, the same blob only as a whole
 Contained == OtherBlob = {"served"} /\ (("quarantined" \in SameBlob) => ("quarantined" \in Damaged))
 
-EmitBytesCase == PrintT(<<"BYTECASE", ToJson([index |-> index, pos |-> pos, nrec |-> nrec,
+EmitBytesCase == PrintT(<<"BYTECASE", ToJson([index |-> index, pos |-> pos, nrec |-> nrec, size |-> size,
                                                damaged |-> Damaged, same |-> SameBlob, other |-> OtherBlob])>>)
 =============================================================================
